@@ -19,6 +19,9 @@ pub struct FnDump {
     /// arity of the k-th `Split` instruction (in pc order); `None` = annotation unavailable
     pub splits: Option<Vec<u32>>,
     pub n_inner: usize,
+    /// shape of the core expression of this function for the `TailPos` model and, per emitted call
+    /// in emission order, (the property says it is in tail position, innermost tail context)
+    pub tail: Option<(String, Vec<(bool, String)>)>,
 }
 
 /// Annotation tree mirroring the compiler's traversal (vm/src/compiler.rs `compile_`): one node per
@@ -29,6 +32,8 @@ struct Ann {
     splits: Vec<u32>,
     ok: bool,
     inner: Vec<Ann>,
+    shape: String,
+    calls: Vec<(bool, String)>,
 }
 
 fn record_fields(t: &ArcType) -> Option<(usize, bool)> {
@@ -55,56 +60,108 @@ fn record_split(typ: &ArcType, nfields_pat: usize) -> Option<Option<u32>> {
     }
 }
 
-fn walk(e: &Expr, a: &mut Ann) {
+const BINOPS: &[&str] = &[
+    "#Int+", "#Int-", "#Int*", "#Int/", "#Int<", "#Char<", "#Int==", "#Char==", "#Byte+", "#Byte-", "#Byte*",
+    "#Byte/", "#Byte<", "#Byte==", "#Float+", "#Float-", "#Float*", "#Float/", "#Float<", "#Float==",
+];
+
+/// Mirrors the traversal of vm/src/compiler.rs `compile_` / `compile_primitive` (emission order).
+/// Returns the shape of `e` for the `TailPos` model; records Split arities and, for every call
+/// instruction that will be emitted, whether the PROPERTY puts it in tail position: a call is a tail
+/// call iff its value is the value of the function body — body of `let`, alternative of `match`
+/// (`if`), right operand of `&&` / `||`, all the way up.
+fn walk(e: &Expr, a: &mut Ann, tail: bool, ctx: &str) -> String {
     match e {
-        Expr::Const(..) | Expr::Ident(..) => (),
-        Expr::Let(lb, body) => {
-            match &lb.expr {
-                Named::Expr(b) => walk(b, a),
-                Named::Recursive(cs) => {
-                    for c in cs {
-                        if c.args.is_empty() {
-                            walk(c.expr, a);
-                        } else {
-                            let mut inner = Ann { ok: true, ..Default::default() };
-                            walk(c.expr, &mut inner);
-                            a.inner.push(inner);
-                        }
+        Expr::Const(..) | Expr::Ident(..) => "a".into(),
+        Expr::Let(lb, body) => match &lb.expr {
+            Named::Expr(b) => {
+                let sb = walk(b, a, false, "let-bind");
+                let sbody = walk(body, a, tail, if tail { "let-body" } else { ctx });
+                format!("(let {} {})", sb, sbody)
+            }
+            Named::Recursive(cs) => {
+                let mut vals = vec![];
+                for c in cs {
+                    if c.args.is_empty() {
+                        vals.push(walk(c.expr, a, false, "rec-value"));
+                    } else {
+                        let mut inner = Ann { ok: true, ..Default::default() };
+                        inner.shape = walk(c.expr, &mut inner, true, "lambda-body");
+                        a.inner.push(inner);
                     }
                 }
+                let sbody = walk(body, a, tail, if tail { "let-body" } else { ctx });
+                format!("(rec ({}) {})", vals.join(" "), sbody)
             }
-            walk(body, a)
-        }
+        },
         Expr::Call(f, args) => {
-            // primitives (`#Int+` …, `&&`, `||`) compile lhs then rhs, constructors their
-            // arguments, everything else the function then the arguments: the same order, and an
-            // identifier emits no Split
-            walk(f, a);
-            for x in args.iter() {
-                walk(x, a);
+            if let Expr::Ident(id, _) = f {
+                let full = id.name.as_str();
+                let decl = id.name.declared_name();
+                let prim = full == "&&" || full == "||" || full.starts_with('#');
+                if prim && decl != "#error" && args.len() == 2 {
+                    if decl == "&&" || decl == "||" {
+                        let l = walk(&args[0], a, false, "bool-lhs");
+                        let lab = if decl == "&&" { "and-rhs" } else { "or-rhs" };
+                        let r = walk(&args[1], a, tail, if tail { lab } else { ctx });
+                        return format!("({} {} {})", if decl == "&&" { "and" } else { "or" }, l, r);
+                    }
+                    let l = walk(&args[0], a, false, "operand");
+                    let r = walk(&args[1], a, false, "operand");
+                    if BINOPS.contains(&decl) {
+                        return format!("(bin {} {})", l, r);
+                    }
+                    a.calls.push((false, "primitive".into()));
+                    return format!("(prim {} {})", l, r);
+                }
+                if !prim && decl.chars().next().map_or(false, |c| c.is_uppercase()) {
+                    let xs: Vec<String> = args.iter().map(|x| walk(x, a, false, "ctor-arg")).collect();
+                    return format!("(ctor ({}))", xs.join(" "));
+                }
             }
+            let sf = walk(f, a, false, "callee");
+            let xs: Vec<String> = args.iter().map(|x| walk(x, a, false, "argument")).collect();
+            a.calls.push((tail, ctx.to_string()));
+            format!("(call {} ({}))", sf, xs.join(" "))
         }
         Expr::Match(scrut, alts) => {
-            walk(scrut, a);
+            let ss = walk(scrut, a, false, "scrutinee");
+            let mut lits = vec![];
             for alt in alts.iter() {
-                match &alt.pattern {
-                    Pattern::Constructor(_, args) => a.splits.push(args.len() as u32),
-                    Pattern::Record { typ, fields } => match record_split(typ, fields.len()) {
-                        Some(Some(k)) => a.splits.push(k),
-                        Some(None) => (),
-                        None => a.ok = false,
-                    },
-                    Pattern::Ident(_) | Pattern::Literal(_) => (),
+                let is_str = matches!(&alt.pattern, Pattern::Literal(gluon::vm::core::Literal::String(_)));
+                if is_str {
+                    a.calls.push((false, "string-pattern-test".into()));
                 }
-                walk(alt.expr, a);
+                lits.push(is_str);
             }
+            let mut out = vec![];
+            for (alt, is_str) in alts.iter().zip(lits) {
+                let kind = match &alt.pattern {
+                    Pattern::Constructor(_, args) => {
+                        a.splits.push(args.len() as u32);
+                        "match-alt:constructor"
+                    }
+                    Pattern::Record { typ, fields } => {
+                        match record_split(typ, fields.len()) {
+                            Some(Some(k)) => a.splits.push(k),
+                            Some(None) => (),
+                            None => a.ok = false,
+                        }
+                        "match-alt:record"
+                    }
+                    Pattern::Ident(_) => "match-alt:variable",
+                    Pattern::Literal(_) => "match-alt:literal",
+                };
+                let sb = walk(alt.expr, a, tail, if tail { kind } else { ctx });
+                out.push(format!("({} {})", if is_str { 1 } else { 0 }, sb));
+            }
+            format!("(match {} ({}))", ss, out.join(" "))
         }
         Expr::Data(_, xs, _) => {
-            for x in xs.iter() {
-                walk(x, a);
-            }
+            let v: Vec<String> = xs.iter().map(|x| walk(x, a, false, "data-field")).collect();
+            format!("(data ({}))", v.join(" "))
         }
-        Expr::Cast(x, _) => walk(x, a),
+        Expr::Cast(x, _) => format!("(cast {})", walk(x, a, tail, ctx)),
     }
 }
 
@@ -117,6 +174,11 @@ fn flatten(f: &CompiledFunction, ann: Option<&Ann>, path: Vec<usize>, out: &mut 
         _ => None,
     };
     let inner_ok = matches!(ann, Some(a) if a.inner.len() == f.inner_functions.len());
+    let n_calls = f.instructions.iter().filter(|i| matches!(i, Call(_) | TailCall(_))).count();
+    let tail = match ann {
+        Some(a) if inner_ok && a.calls.len() == n_calls => Some((a.shape.clone(), a.calls.clone())),
+        _ => None,
+    };
     out.push(FnDump {
         path: path.clone(),
         name: f.id.declared_name().to_string(),
@@ -125,6 +187,7 @@ fn flatten(f: &CompiledFunction, ann: Option<&Ann>, path: Vec<usize>, out: &mut 
         instrs: f.instructions.clone(),
         splits,
         n_inner: f.inner_functions.len(),
+        tail,
     });
     for (i, g) in f.inner_functions.iter().enumerate() {
         let mut p = path.clone();
@@ -157,7 +220,7 @@ pub fn compile(vm: &Thread, name: &str, src: &str) -> Result<Compiled, String> {
         Ok(Ok(cv)) => cv,
     };
     let mut ann = Ann { ok: true, ..Default::default() };
-    walk(cv.core_expr.value.expr(), &mut ann);
+    ann.shape = walk(cv.core_expr.value.expr(), &mut ann, true, "module-body");
     let mut fns = vec![];
     flatten(&cv.module.function, Some(&ann), vec![], &mut fns);
     Ok(Compiled { fns, value: cv.map(|_| ()) })
